@@ -113,6 +113,18 @@ type Case struct {
 	Input        []Msg     `json:"input"`
 	Script       []Step    `json:"script"`
 	Concurrent   int       `json:"concurrent,omitempty"`
+	// what the model reports besides content and tool calls (schema.Message.ResponseMeta): "" nothing |
+	// stop (always "stop", also with tool calls - several OpenAI-compatible servers do) | accurate ("tool_calls"
+	// when the message has some, else "stop") | length.  The agent's routing is about tool calls only.
+	Finish   string `json:"finish,omitempty"`
+	FinishAt string `json:"finish_at,omitempty"` // Stream: the chunk(s) carrying the meta: last (default) | first | all
+	// the streaming / invokable tools honour the context they are called with: stop ("stop": the stream just ends)
+	// or say so ("report": an error item / error) once it is cancelled.  The caller's context is never cancelled,
+	// so a tool that sees a cancelled context was cancelled by the agent itself.
+	CtxTools string `json:"ctx_tools,omitempty"`
+	// the concurrent runs are the FIRST runs of the freshly built agent (else they come after a Generate and a
+	// Stream run): whatever the agent sets up lazily is then set up by overlapping calls
+	ConcFirst bool `json:"conc_first,omitempty"`
 }
 
 // ---------------------------------------------------------------- recording
@@ -129,6 +141,9 @@ type toolOpts struct{ marker string }
 const toolMarker = "c18-marker"
 
 var futureHangs atomic.Int32
+
+// how often the wait for the tool executions still running after a failed round expired
+var stragglerWaits atomic.Int32
 
 // a run that has not returned after 10 s is given 50 s more before it is called a hang (the machine may
 // just be slow: many other heavy processes); once a hang was seen, later runs get the 10 s only
@@ -274,6 +289,23 @@ func (c *Case) idx(i int) int {
 	return c.IndexBase + st*i
 }
 
+// the ResponseMeta the model attaches to a reply (nil = none)
+func (c *Case) meta(st *Step) *schema.ResponseMeta {
+	fr := ""
+	switch c.Finish {
+	case "":
+		return nil
+	case "accurate":
+		fr = "stop"
+		if len(st.Calls) > 0 {
+			fr = "tool_calls"
+		}
+	default:
+		fr = c.Finish
+	}
+	return &schema.ResponseMeta{FinishReason: fr, Usage: &schema.TokenUsage{PromptTokens: 7, CompletionTokens: 3, TotalTokens: 10}}
+}
+
 // next records the call and returns the scripted step (nil = failure)
 func (m *fakeModel) next(ctx context.Context, input []*schema.Message) (*Step, int) {
 	rc := recOf(ctx)
@@ -298,7 +330,7 @@ func (m *fakeModel) Generate(ctx context.Context, input []*schema.Message, _ ...
 	if st == nil {
 		return nil, &modelErr{k}
 	}
-	out := &schema.Message{Role: schema.Assistant, Content: st.Content}
+	out := &schema.Message{Role: schema.Assistant, Content: st.Content, ResponseMeta: m.c.meta(st)}
 	for i, cl := range st.Calls {
 		tc := schema.ToolCall{ID: cl.ID, Type: "function", Function: schema.FunctionCall{Name: cl.Name, Arguments: cl.Args}}
 		if m.c.IndexInWhole {
@@ -321,6 +353,11 @@ func (m *fakeModel) Stream(ctx context.Context, input []*schema.Message, _ ...mo
 		cm := &schema.Message{Content: ch.Content}
 		if i == 0 || m.c.IndexInWhole {
 			cm.Role = schema.Assistant
+		}
+		switch {
+		case m.c.FinishAt == "all", m.c.FinishAt == "first" && i == 0,
+			(m.c.FinishAt == "last" || m.c.FinishAt == "") && i == len(st.Chunks)-1:
+			cm.ResponseMeta = m.c.meta(st)
 		}
 		for _, f := range ch.Frags {
 			idx := f.Index
@@ -448,12 +485,22 @@ func (c *Case) failsLate(args string) bool {
 	return false
 }
 
+// a tool that honours its context found it cancelled (nobody but the agent can have cancelled it)
+type ctxErr struct{ cause error }
+
+func (e *ctxErr) Error() string {
+	return "TOOLCTX#: the context the tool was called with is cancelled: " + e.cause.Error()
+}
+
 func (t *recTool) invoke(ctx context.Context, args string, opts ...tool.Option) (string, error) {
 	if !t.record(ctx, t.name, args, opts...) {
 		return "", &toolErr{}
 	}
 	if t.c.panics(args) {
 		panic("TOOLPANIC#")
+	}
+	if t.c.CtxTools != "" && ctx.Err() != nil {
+		return "", &ctxErr{ctx.Err()}
 	}
 	if t.c.failsLate(args) {
 		return "", &toolErr{}
@@ -470,19 +517,30 @@ func (t *recTool) stream(ctx context.Context, args string, opts ...tool.Option) 
 	}
 	chunks := append([]string{}, t.c.toolChunks(t.name, args)...)
 	late := t.c.failsLate(args)
-	if !t.c.PipeStream && !late {
+	watch := t.c.CtxTools != ""
+	if watch && ctx.Err() != nil {
+		return nil, &ctxErr{ctx.Err()}
+	}
+	if !t.c.PipeStream && !late && !watch {
 		return schema.StreamReaderFromArray(chunks), nil
 	}
 	// a tool that really streams: a pipe fed by its own goroutine (unbuffered, or - so that a
 	// reader that stops early does not leave the goroutine behind - large enough for everything)
 	n := 0
-	if !t.c.PipeStream {
+	if !t.c.PipeStream && !watch {
 		n = len(chunks) + 1
 	}
 	sr, sw := schema.Pipe[string](n)
 	go func() {
 		defer sw.Close()
 		for _, ch := range chunks {
+			// a well-behaved tool goes on producing only while somebody may still want the result
+			if watch && ctx.Err() != nil {
+				if t.c.CtxTools == "report" {
+					sw.Send("", &ctxErr{ctx.Err()})
+				}
+				return
+			}
 			if sw.Send(ch, nil) {
 				return
 			}
@@ -820,7 +878,9 @@ func (o *RunObs) stripTag(tag string) {
 	}
 }
 
-func runAgent(tg *target, c *Case, mode string) (o RunObs) { return runAgentTagged(tg, c, mode, "", nil) }
+func runAgent(tg *target, c *Case, mode string) (o RunObs) {
+	return runAgentTagged(tg, c, mode, "", nil)
+}
 
 func runAgentTagged(tg *target, c *Case, mode string, tag string, rv *rendezvous) (o RunObs) {
 	o.Mode, o.Exported = mode, tg.exported
@@ -981,18 +1041,35 @@ func runAgentTagged(tg *target, c *Case, mode string, tag string, rv *rendezvous
 	// a panic of the first call of a round (the tools node runs it on its own goroutine, without a
 	// recover) leaves the node before the goroutines of the other calls have finished - they were
 	// started and do run: give them time to be recorded
-	if c.hasPanickingTool() {
+	// (only a run that failed can have left them behind, and only in the rounds whose model call was made;
+	// once the wait has expired in vain - an implementation that does not run what the property expects -
+	// later runs wait briefly: the harness stays within its time budget)
+	if c.hasPanickingTool() && o.Out.Class != "final" {
+		rc.mu.Lock()
+		made := len(rc.calls)
+		rc.mu.Unlock()
 		want := 0
-		for _, rnd := range c.specRunWith(-1, !tg.exported, mode == "stream").Rounds {
-			want += len(rnd)
+		for k, rnd := range c.specRunWith(-1, !tg.exported, mode == "stream").Rounds {
+			if k < made {
+				want += len(rnd)
+			}
 		}
-		for deadline := time.Now().Add(20 * time.Second); time.Now().Before(deadline); time.Sleep(time.Millisecond) {
+		patience := 20 * time.Second
+		if stragglerWaits.Load() > 0 {
+			patience = 200 * time.Millisecond
+		}
+		arrived := false
+		for deadline := time.Now().Add(patience); time.Now().Before(deadline); time.Sleep(time.Millisecond) {
 			rc.mu.Lock()
 			n := len(rc.execs)
 			rc.mu.Unlock()
 			if n >= want {
+				arrived = true
 				break
 			}
+		}
+		if !arrived {
+			stragglerWaits.Add(1)
 		}
 	}
 	if !reflect.DeepEqual(renderAll(in), inBefore) {
@@ -1938,6 +2015,17 @@ func genCase(r *lib.Rng, tier string) *Case {
 		c.EmptyRD = r.Chance(1, 3)
 	}
 	c.Twin = c.SetupFault == "" && r.Chance(1, 5)
+	if r.Chance(1, 3) { // the model reports a finish reason and its token usage
+		c.Finish = r.Pick([]string{"stop", "stop", "accurate", "length"})
+		c.FinishAt = r.Pick([]string{"last", "first", "all"})
+	}
+	c.ConcFirst = c.Concurrent > 0 && r.Chance(1, 2)
+	if r.Chance(1, 25) { // no original message at all
+		c.Input = nil
+	}
+	if r.Chance(1, 3) { // tools that watch the context they are called with
+		c.CtxTools = r.Pick([]string{"stop", "report"})
+	}
 	return c
 }
 
@@ -1983,6 +2071,26 @@ func (engine) Decode(raw json.RawMessage) (any, error) {
 	return c, nil
 }
 
+// c.Concurrent overlapping runs of one agent (Generate and Stream alternately), each with its mark
+func concurrentRuns(tg *target, c *Case) []RunObs {
+	conc := make([]RunObs, c.Concurrent)
+	rv := &rendezvous{n: c.Concurrent, all: make(chan struct{}), seen: map[*recorder]bool{}}
+	var wg sync.WaitGroup
+	for i := range conc {
+		wg.Add(1)
+		go func(i int) {
+			defer wg.Done()
+			mode := "generate"
+			if i%2 == 1 {
+				mode = "stream"
+			}
+			conc[i] = runAgentTagged(tg, c, mode, runTag(i), rv)
+		}(i)
+	}
+	wg.Wait()
+	return conc
+}
+
 func (engine) Run(ci any) lib.Result {
 	c := ci.(*Case)
 	defer markRunning(c)()
@@ -2015,6 +2123,10 @@ func (engine) Run(ci any) lib.Result {
 		return res
 	}
 	tg := agentTarget(ag)
+	var conc []RunObs
+	if c.Concurrent > 0 && c.ConcFirst {
+		conc = concurrentRuns(tg, c)
+	}
 	gen := runAgent(tg, c, "generate")
 	str := runAgent(tg, c, "stream")
 	var exp []RunObs
@@ -2027,23 +2139,8 @@ func (engine) Run(ci any) lib.Result {
 		}
 		exp = []RunObs{runAgent(xt, c, "generate"), runAgent(xt, c, "stream")}
 	}
-	var conc []RunObs
-	if c.Concurrent > 0 {
-		conc = make([]RunObs, c.Concurrent)
-		rv := &rendezvous{n: c.Concurrent, all: make(chan struct{}), seen: map[*recorder]bool{}}
-		var wg sync.WaitGroup
-		for i := range conc {
-			wg.Add(1)
-			go func(i int) {
-				defer wg.Done()
-				mode := "generate"
-				if i%2 == 1 {
-					mode = "stream"
-				}
-				conc[i] = runAgentTagged(tg, c, mode, runTag(i), rv)
-			}(i)
-		}
-		wg.Wait()
+	if c.Concurrent > 0 && !c.ConcFirst {
+		conc = concurrentRuns(tg, c)
 	}
 	var twin []RunObs
 	if firstBuilt != nil {
@@ -2247,6 +2344,34 @@ func (engine) Run(ci any) lib.Result {
 		}
 	}
 	res.Tags = append(res.Tags, fmt.Sprintf("model-stream-first-fragment-without-name:%v", lateName))
+	fin := "none"
+	if c.Finish != "" {
+		at := c.FinishAt
+		if at == "" {
+			at = "last"
+		}
+		fin = c.Finish + "/stream-chunk:" + at
+	}
+	watched := 0 // rounds of several calls with a streaming tool among them (what a context-watching tool can tell apart)
+	for _, rnd := range gen.Rounds {
+		streams := false
+		for _, cl := range rnd {
+			k := kindIn(c.toolsOf(true), cl.Name)
+			streams = streams || k == "str" || k == "both"
+		}
+		if streams && len(rnd) > 1 {
+			watched++
+		}
+	}
+	ct := "no"
+	if c.CtxTools != "" {
+		ct = fmt.Sprintf("%s,parallel-rounds-with-a-streaming-tool:%v", c.CtxTools, watched > 0)
+	}
+	res.Tags = append(res.Tags, "model-finish-reason:"+fin, "tools-watch-their-context:"+ct)
+	if c.Concurrent > 0 {
+		res.Tags = append(res.Tags, fmt.Sprintf("concurrent-runs-are-the-agent's-first:%v", c.ConcFirst))
+	}
+	res.Tags = append(res.Tags, fmt.Sprintf("original-messages:%d", len(c.Input)))
 	res.Nontrivial = len(gen.Rounds) >= 1
 	return res
 }
@@ -2291,7 +2416,7 @@ func (engine) Shrink(ci any, stillFails func(any) bool) any {
 		return false
 	}
 	for _, f := range []func(c *Case) bool{
-		func(c *Case) bool { ch := c.Concurrent != 0; c.Concurrent = 0; return ch },
+		func(c *Case) bool { ch := c.Concurrent != 0; c.Concurrent, c.ConcFirst = 0, false; return ch },
 		func(c *Case) bool { ch := c.Exported; c.Exported = false; return ch },
 		func(c *Case) bool { ch := c.Future; c.Future = false; return ch },
 		func(c *Case) bool { ch := c.ToolOpt; c.ToolOpt = false; return ch },
@@ -2320,8 +2445,17 @@ func (engine) Shrink(ci any, stillFails func(any) bool) any {
 		func(c *Case) bool { ch := len(c.RD) > 0; c.RD = nil; return ch },
 		func(c *Case) bool { ch := c.MaxStep != 0; c.MaxStep = 0; return ch },
 		func(c *Case) bool { ch := c.Twin; c.Twin = false; return ch },
+		func(c *Case) bool { ch := c.Finish != ""; c.Finish, c.FinishAt = "", ""; return ch },
+		func(c *Case) bool { ch := c.CtxTools != ""; c.CtxTools = ""; return ch },
+		func(c *Case) bool { ch := c.ConcFirst; c.ConcFirst = false; return ch },
 		func(c *Case) bool { ch := c.EmptyRD; c.EmptyRD = false; return ch },
-		func(c *Case) bool { ch := len(c.Input) > 1; c.Input = c.Input[len(c.Input)-1:]; return ch },
+		func(c *Case) bool {
+			if len(c.Input) <= 1 {
+				return false
+			}
+			c.Input = c.Input[len(c.Input)-1:]
+			return true
+		},
 	} {
 		try(f)
 	}
